@@ -1,26 +1,117 @@
 (* C01 -- compiled Lua behaves as the Sylt source denotes.
-   The full statement is NOT proved; it is kept visible here.  What is machine-checked for all programs
-   are structural facts about the lowering (C10_lower_scoped, C06 lemmas); the behavioural claim is
-   validated per program by running both interpreters (tools/props/c01.py). *)
+
+   WHAT IS A THEOREM (all programs of the fragment, all inputs, any fuel):
+     C01_fragment_preservation -- semantic preservation of the backend model (Back/IR.v `lower` + the AST
+     twin Pres/EmitAst.v of the text emitter Back/Emit.v) with respect to the reference interpreter
+     Sem/SyltSem.v (source side) and the Lua 5.3 interpreter model Lua/LuaCore.v (target side), for the
+     computable fragment Pres/Frag.v `frag` (stage stated there).  The Lua side runs the statements of the
+     REAL preamble.lua (Gen/GenPreamble.v, regenerated on every run) followed by the program's statements.
+   WHAT IS CHECKED AT RUN TIME, per program of the tie (tools/props/c01.py):
+     * component "emit_ast": LuaParse.parse_lua Lua53 (real compiler output) = ParseOk (chunk_ast code), i.e. the
+       abstract syntax the theorem speaks about IS what the real compiler printed (hypothesis of
+       C01_fragment_preservation_text below);
+     * the byte tie of Back/IR.v + Back/Emit.v with the real compiler (C10/C06);
+     * outside the fragment: translation validation (reference interpreter vs LuaCore on the real chunk).
+   WHAT IS NOT PROVED: the full statement C01_full_statement (kept visible below). *)
 From Coq Require Import String List NArith ZArith Bool.
-From Sylt Require Import Syntax.Resolved Back.IR Back.Emit Sem.SyltSem Lua.LuaAst Lua.LuaCore.
+From Sylt Require Import Syntax.Resolved Back.IR Back.Emit Sem.SyltSem Lua.LuaAst Lua.LuaParse Lua.LuaCore.
+From Sylt Require Import Gen.GenPreamble Pres.EmitAst Pres.Frag Pres.Tie Pres.PresProofs.
 Import ListNotations.
+
+(* the correspondence of final outcomes: a failed <=> and a reached <!> are Lua errors *)
+Definition same_final := PresProofs.same_final.
+Definition good_final := PresProofs.good_final.
 
 (* "for every accepted program in the core fragment, if the reference interpreter terminates with a
    trace and a final outcome, then the emitted chunk (preamble ++ text), run in the Lua interpreter
-   model with enough fuel, prints the same lines and ends the same way" *)
-Definition same_final (o : SyltSem.outcome) (f : LuaCore.final) : Prop :=
-  match o, f with
-  | ODone, FDone => True
-  | OAssert, FError _ => True
-  | OUnreachable _, FError _ => True
-  | _, _ => False
-  end.
-
+   model with enough fuel, prints the same lines and ends the same way" -- NOT proved in general *)
 Definition C01_full_statement (preamble : string) : Prop :=
   forall (r : resolved) (text : string) (n : nat) (res : SyltSem.run_result),
     backend n None r = Ok text ->
     SyltSem.run n r = res ->
-    (match r_final res with ODone | OAssert | OUnreachable _ => True | _ => False end) ->
+    good_final (r_final res) ->
     exists m, let out := LuaCore.run Lua53 m (preamble ++ text) in
               o_trace out = r_trace res /\ same_final (r_final res) (o_final out).
+
+(* ---- the theorem for the fragment ---- *)
+
+(* chunk_ast code = the statements of preamble.lua (as LuaParse reads GenPreamble.preamble_src) ++ emit_ast code *)
+Theorem C01_fragment_preservation :
+  forall (k : nat) (r : resolved) (code : list ir) (n : nat) (res : SyltSem.run_result),
+    frag k r = true ->
+    lower n r = Ok code ->
+    SyltSem.run n r = res ->
+    good_final (r_final res) ->
+    exists m, forall m', (m <= m')%nat ->
+      let out := LuaCore.run_block Lua53 m' (chunk_ast code) in
+      o_trace out = r_trace res /\ same_final (r_final res) (o_final out).
+Proof. exact fragment_preservation. Qed.
+
+(* the same, for the emitted TEXT, under the hypothesis that the tie checks on every program:
+   the Lua parser model reads the real chunk as chunk_ast code *)
+Theorem C01_fragment_preservation_text :
+  forall (k : nat) (r : resolved) (code : list ir) (text : string) (n : nat) (res : SyltSem.run_result),
+    frag k r = true ->
+    lower n r = Ok code ->
+    parse_lua Lua53 (preamble_src ++ text) = ParseOk (chunk_ast code) ->
+    SyltSem.run n r = res ->
+    good_final (r_final res) ->
+    exists m, forall m', (m <= m')%nat ->
+      let out := LuaCore.run Lua53 m' (preamble_src ++ text) in
+      o_trace out = r_trace res /\ same_final (r_final res) (o_final out).
+Proof.
+  intros k r code text n res Hf Hl Hp Hr Hg.
+  destruct (fragment_preservation k r code n res Hf Hl Hr Hg) as [m H].
+  exists m. intros m' Hm. unfold LuaCore.run. rewrite Hp. exact (H m' Hm).
+Qed.
+
+(* ---- non-vacuity: a program in the fragment that satisfies every hypothesis ----
+     print: fn *X -> void : external
+     start :: fn do
+       a :: 3
+       b :: a + 2 * a
+       c :: b < 5 or not (a == 3)
+       print(b)  print(c)
+       do d :: a - b  print(-d) end
+       b <=> 9
+       print(a + a)
+     end                                                                                        *)
+Definition sp0 := mkSpan 0 1 1 1 1.
+Definition ex_prog : resolved :=
+  mkResolved
+    [mkVar 0 "print" sp0 true Const; mkVar 1 "start" sp0 true Const; mkVar 2 "== STACK ==" sp0 false Const;
+     mkVar 3 "a" sp0 false Const; mkVar 4 "b" sp0 false Const; mkVar 5 "c" sp0 false Const; mkVar 6 "d" sp0 false Const]
+    [SExternalDefinition "print" 0 Const (TImplied sp0) sp0;
+     SDefinition "start" 1 Const (TImplied sp0)
+       (EFunction "lambda" [] (TImplied sp0)
+          [SDefinition "a" 3 Const (TImplied sp0) (EInt 3 sp0) sp0;
+           SDefinition "b" 4 Const (TImplied sp0)
+             (EBinOp Add (ERead 3 sp0) (EBinOp Mul (EInt 2 sp0) (ERead 3 sp0) sp0) sp0) sp0;
+           SDefinition "c" 5 Const (TImplied sp0)
+             (EBinOp Or (EBinOp Less (ERead 4 sp0) (EInt 5 sp0) sp0)
+                        (EUniOp Not (EBinOp Equals (ERead 3 sp0) (EInt 3 sp0) sp0) sp0) sp0) sp0;
+           SStatementExpression (Resolved.ECall (ERead 0 sp0) [ERead 4 sp0] sp0) sp0;
+           SStatementExpression (Resolved.ECall (ERead 0 sp0) [ERead 5 sp0] sp0) sp0;
+           SBlock [SDefinition "d" 6 Const (TImplied sp0) (EBinOp Sub (ERead 3 sp0) (ERead 4 sp0) sp0) sp0;
+                   SStatementExpression (Resolved.ECall (ERead 0 sp0) [EUniOp Neg (ERead 6 sp0) sp0] sp0) sp0] sp0;
+           SStatementExpression (EBinOp AssertEq (ERead 4 sp0) (EInt 9 sp0) sp0) sp0;
+           SStatementExpression (Resolved.ECall (ERead 0 sp0) [EBinOp Add (ERead 3 sp0) (ERead 3 sp0) sp0] sp0) sp0]
+          false sp0) sp0].
+
+Example C01_example_hypotheses :
+  frag 30 ex_prog = true /\
+  (exists code, lower 30 ex_prog = Ok code) /\
+  SyltSem.run 30 ex_prog = mkRun ["9"; "false"; "6"; "6"]%string ODone.
+Proof. split; [vm_compute; reflexivity | split; [eexists; vm_compute; reflexivity | vm_compute; reflexivity]]. Qed.
+
+(* the Lua side of the same program, computed: the theorem's conclusion observed at one fuel *)
+Example C01_example_lua_side :
+  match lower 30 ex_prog with
+  | Ok code => let out := LuaCore.run_block Lua53 4000 (chunk_ast code) in
+               o_trace out = ["9"; "false"; "6"; "6"]%string /\ o_final out = FDone
+  | _ => False
+  end.
+Proof. vm_compute. split; reflexivity. Qed.
+
+Print Assumptions C01_fragment_preservation.
+Print Assumptions C01_fragment_preservation_text.
